@@ -602,6 +602,51 @@ def rule_r12(facts, col, rule_id="C02.R12"):
     return n
 
 
+def rule_r13(facts, col, rule_id="C02.R13"):
+    """consuming a completely full ring removes its tags too: the single-range scan `range(rpos .. newpos)` of consume() is
+    taken only under the STRICT test `newpos > rpos`.  After a consume of n >= 1 samples `newpos == rpos` means the whole ring
+    was consumed (n == capacity); under `>=` that case scans the empty range [rpos, rpos), removes nothing, and the stale tags
+    are delivered again with whatever samples reuse those slots."""
+    n = 0
+    for body in facts.bodies:
+        if body.kind == "closure" or body.file != "src/circular_buffer.rs" or body.name != "consume" or not (body.self_adt or "").endswith("Buffer"):
+            continue
+        for bb, t in body.calls():
+            if t["f"].get("name") != "range" or "BTreeMap" not in (t["f"].get("q") or "") or len(t["args"]) < 2:
+                continue
+            rg = body.operand_expr(t["args"][1])
+            # both ends are positions: rpos as one end, a computed new position as the other
+            has_rpos = any(x.k == "field" and x.owner == c01.STATE_ADT and x.name == "rpos" for x in walk(rg))
+            ends = [x for x in walk(rg) if x.k in ("multi", "local") or (x.k == "bin" and x.op == "Rem")]
+            if not has_rpos or not ends:
+                continue
+            if any(x.k == "const" and x.v == 0 for x in walk(rg)) or any(x.k == "call" and (x.q or "").endswith("capacity") for x in walk(rg) if False):
+                continue
+            strict = None
+            for f in facts_at(body, bb):
+                if f[0] in ("Gt", "Ge", "Lt", "Le") and hasattr(f[1], "k") and hasattr(f[2], "k"):
+                    sides = [peel(f[1], through_try=False), peel(f[2], through_try=False)]
+                    is_rpos = [sd.k == "field" and sd.owner == c01.STATE_ADT and sd.name == "rpos" for sd in sides]
+                    if is_rpos[0] != is_rpos[1]:
+                        strict = f[0] in ("Gt", "Lt")
+            if strict is None:
+                continue
+            n += 1
+            key = "%s:single-scan" % body.q
+            # a range whose both ends lie in the ring without 0 / capacity as an end is the non-wrapping scan
+            if strict:
+                col.ok(rule_id, key, body.where(bb), "the non-wrapping scan is chosen under a strict comparison of the new and the old read position")
+            else:
+                col.bad(rule_id, key, body.where(bb),
+                        "the non-wrapping tag scan is chosen under a NON-strict comparison of the new read position with rpos: when a "
+                        "completely full ring is consumed in one call the positions are equal, the scanned range is empty and none of "
+                        "the consumed samples' tags is removed", {})
+    if n == 0:
+        col.ok(rule_id, "scanned", "src/circular_buffer.rs", "consume() scanned: no non-wrapping range scan chosen by a comparison with rpos "
+               "(other spellings of the removal are judged by R6)")
+    return n
+
+
 _STREAM_API = {"read_range", "write_range", "capacity", "free", "new", "slice", "slice_mut", "full_buffer", "len", "is_empty", "total_size",
                "consume", "produce", "read_buf", "write_buf", "wait_for_read", "wait_for_write", "iter", "fill_from_slice", "fill_from_iter"}
 
@@ -675,6 +720,8 @@ def run(ctx):
     ctx.floor("C02.R10", 1, "Buffer::read_buf")
     rule_r11(facts0, ctx)
     ctx.floor("C02.R11", 1, "callers of Circ::total_size (Buffer::total_size today)")
+    rule_r13(facts, ctx)
+    ctx.floor("C02.R13", 1, "the non-wrapping tag scan of consume()")
     rule_r12(facts, ctx)
     ctx.floor("C02.R12", 3, "`% capacity()` reductions in the ring (4 today)")
     rule_r8(facts, ctx)
